@@ -96,7 +96,8 @@ def init_line(conf):
     progs = ";".join(",".join(o2s(o) for o in p) if p else "-" for p in conf["progs"])
     cs = ",".join("%d.%d.%d.%d" % (c["f"], c["v"], int(c["eq"]), c["cell"]) for c in conds)
     lo = ",".join(str(x) for x in conf.get("Loopers", [])) or "-"
-    return "NV=%d Binary=%d Loopers=%s conds=%s progs=%s" % (conf.get("NV", 2), int(bool(conf.get("Binary", False))), lo, cs, progs)
+    kt = "kthr=%d " % conf["kthr"] if conf.get("kthr") else ""      # built with LONG_WAIT_THRESHOLD = kthr (checks/common.py kdefs)
+    return kt + "NV=%d Binary=%d Loopers=%s conds=%s progs=%s" % (conf.get("NV", 2), int(bool(conf.get("Binary", False))), lo, cs, progs)
 
 
 def extract_consts(repo, builddir):
